@@ -500,6 +500,28 @@ class SymMap:
         for ax in self.axioms():
             run.axiom(ax)
 
+    def lookup(self, k):
+        """(present, key term) for a lookup with an arbitrary Python key: dict lookup is by hash and ==, so a number finds
+        the numerically equal key (1 == 1.0 == True) and a key of another kind (str vs number/bool) is never found."""
+        t = E.to_z3(k)
+        ks, ts = self.ksort, t.sort()
+        if ts == ks:
+            if ks == xreal.XReal:
+                return z3.And(z3.Not(xreal.is_nan(t)), self.dom[t]), t
+            return self.dom[t], t
+        num = (z3.IntSort(), z3.BoolSort(), xreal.XReal)
+        if ks in num and ts in num:
+            if ks == xreal.XReal:
+                kt = xreal.lift(t)
+                return self.dom[kt], kt
+            if ks == z3.IntSort():
+                if ts == z3.BoolSort():
+                    kt = E.as_int(t)
+                    return self.dom[kt], kt
+                kt = z3.ToInt(xreal.r(t))
+                return z3.And(xreal.is_fin(t), z3.IsInt(xreal.r(t)), self.dom[kt]), kt
+        return z3.BoolVal(False), None
+
     def values_list(self):
         i = z3.Int('i!vl')
         return SymList(self.n, z3.Lambda([i], self.val[self.karr[i]]), 'pyobj')
@@ -513,12 +535,19 @@ class SymMap:
             return Builtin('values', values)
         if a == 'keys':
             return Builtin('keys', lambda it_, args, kw: SymList(self.n, self.karr, 'str'))
+        if a == 'get':
+            def get(it_, args, kw):
+                present, kt = self.lookup(args[0])
+                if kt is not None and it_.truth(present):
+                    return self.wrap(self.val[kt])
+                return args[1] if len(args) > 1 else kw.get('default')
+            return Builtin('get', get)
         raise Unsupported('method %s of a symbolic dict' % a)
 
 
 def _contains_hook(it, container, x, _prev=M.contains_hook):
     if isinstance(container, SymMap):
-        return container.dom[E.to_z3(x)]
+        return container.lookup(x)[0]
     return _prev(it, container, x)
 
 
@@ -527,8 +556,8 @@ M.contains_hook = _contains_hook
 
 def _subscript_hook(it, base, idx, _prev=M.subscript_hook):
     if isinstance(base, SymMap):
-        k = E.to_z3(idx)
-        if not it.truth(base.dom[k]):
+        present, k = base.lookup(idx)
+        if k is None or not it.truth(present):
             raise PyRaise(it.make_exc('KeyError', [idx]))
         return base.wrap(base.val[k])
     return _prev(it, base, idx)
@@ -541,6 +570,11 @@ def _setitem_hook(it, base, idx, v, _prev=M.setitem_hook):
     if isinstance(base, SymMap):
         k, t = E.to_z3(idx), E.to_z3(v)
         run = it.run
+        if k.sort() != base.ksort:
+            present, k2 = base.lookup(idx)
+            if k2 is None:
+                raise Unsupported('store under a key of another kind into a symbolic dict')
+            k = k2
         if it.truth(base.dom[k]):
             base.val = z3.Store(base.val, k, t)
         else:
@@ -1335,6 +1369,7 @@ def config_wrap(run):
     objs = run.__dict__.setdefault('cfg_objs', {})
 
     def wrap(term):
+        term = z3.simplify(term)
         key = term.get_id()
         if key in objs:
             return objs[key]
@@ -1980,7 +2015,7 @@ FUNCTIONS = [
     (PCM, 'ParameterConfig.contains'), (PCM, 'ParameterConfig._assert_feasible'), (PCM, 'ParameterConfig._assert_bounds'),
     (PCM, 'ParameterConfig._assert_in_feasible_values'), (PCM, 'ParameterConfig.bounds'), (PCM, 'ParameterConfig.feasible_values'),
     (PCM, 'ParameterConfig.num_feasible_values'), (PCM, 'ParameterConfig.factory'), (PCM, 'ParameterConfig._add_children'),
-    (PCM, 'ParameterConfig.subspace'), (PCM, '_validate_bounds'), (PCM, '_get_feasible_points_and_bounds'), (PCM, '_get_categories'),
+    (PCM, 'ParameterConfig.subspace'), (PCM, 'ParameterConfig.get_subspace_deepcopy'), (PCM, '_validate_bounds'), (PCM, '_get_feasible_points_and_bounds'), (PCM, '_get_categories'),
     (PCM, '_get_default_value'), (PCM, 'SearchSpace.add'), (PCM, 'SearchSpace.contains'), (PCM, 'SearchSpace.assert_contains'),
     (PCM, 'SearchSpaceSelector.add_float_param'), (PCM, 'SearchSpaceSelector.add_int_param'), (PCM, 'SearchSpaceSelector.add_discrete_param'),
     (PCM, 'SearchSpaceSelector.add_categorical_param'), (PCM, 'SearchSpaceSelector.add_bool_param'),
@@ -2093,6 +2128,7 @@ def families(tier):
     objs += [('SearchSpaceSelector.add_discrete_param', AddDiscrete(x)) for x in (None, True, False)]
     objs += [('SearchSpaceSelector.add_categorical_param', AddCategorical('str')), ('SearchSpaceSelector.add_categorical_param', AddCategorical('float'))]
     objs += [('SearchSpaceSelector.add_bool_param', AddBool(k)) for k in (None, 0, 1, 2, 3)]
+    objs += [('ParameterConfig.' + mth, Subspace(mth, k, t)) for mth in ('get_subspace_deepcopy', 'subspace') for k in TYPES for t in TAGS]
     objs += [('SearchSpace.assert_contains', AssertContains('assert_contains')), ('SearchSpace.contains', AssertContains('contains')),
              ('Study.add_trial', AddTrial())]
     for fname, o in objs:
@@ -2125,7 +2161,7 @@ def main(tier):
     depth = '3'
     natives = {'findings': start_native(['findings'], 'findings'),
                'assert_contains': start_native(['standin_assert_contains'], 'ac')}
-    for tg in ('0', '1', '2'):
+    for tg in ('0', '1', '2', '3'):
         natives['builder' + tg] = start_native(['standin_builder', depth, tg], 'b' + tg)
     # ---- deductive side
     f4 = chk.finding_for(F4)
@@ -2170,7 +2206,7 @@ def main(tier):
                             'held', detail={k: res[k] for k in ('cases', 'known_finding_cases', 'conditional_refused')})
     total = {'spaces': 0, 'runs': 0}
     bfail, empty = None, None
-    for tg in ('0', '1', '2'):
+    for tg in ('0', '1', '2', '3'):
         res, verdict, err = collect_native(natives['builder' + tg])
         if res is None:
             chk.error('C16.standin.SequentialParameterBuilder', 'native enumeration did not run: %s %s' % (verdict, err))
@@ -2186,8 +2222,9 @@ def main(tier):
                        detail=bfail, model=json.dumps(bfail), replay={'cmd': '/venv/bin/python %s standin_builder %s' % (REPLAY, depth), 'first_failure': bfail}, reproduced=True)
     elif bfail is None:
         chk.bounded_standin('SequentialParameterBuilder (generator driven by send) on the real code: visited parameters == active parameters, each once; built ParameterDict == choices',
-                            'all conditional spaces of the family: depth <= 3, <= 2 children per parent value (one parent + one leaf), parents CATEGORICAL/INTEGER/DISCRETE '
-                            'in 3 rotations, 1-2 top-level parameters; every choice sequence; dfs and bfs', 'held', detail=total)
+                            'all conditional spaces of the family: depth <= 3, <= 2 children per parent value (one parent + one leaf), parents CATEGORICAL/INTEGER/DISCRETE/BOOLEAN '
+                            'in 4 rotations, 1-2 top-level parameters; every choice sequence; dfs and bfs; parent values supplied in their internal types and in their '
+                            'external Python types (bool for boolean, float for integer, int for discrete parameters)', 'held', detail=total)
         fe = chk.finding_for('C16.SequentialParameterBuilder.empty_space')
         if empty and not empty.startswith('visited'):
             if fe:
@@ -2200,3 +2237,120 @@ def main(tier):
         elif fe:
             chk.error('C16.known_finding.stale', 'SequentialParameterBuilder on an empty space no longer raises (%s): update known_findings.d/C16.json' % empty)
     return chk.finish(min_obligations=250)
+
+
+# =========================================================================================== H. subspaces by parent value
+def space_wrap(run):
+    """value wrapper of a symbolic value->SearchSpace dict (ParameterConfig._children): stored instances keep their
+    identity; unknown entries are abstract SearchSpace instances carrying their term."""
+    objs = run.__dict__.setdefault('cfg_objs', {})
+
+    def wrap(term):
+        term = z3.simplify(term)            # select(store(a, k, t), k) is t: a stored instance is found again
+        key = term.get_id()
+        if key not in objs:
+            o = Obj(pcm().classes['SearchSpace'], {'__term__': term})
+            o.term = term
+            o.abstract = True
+            objs[key] = o
+        return objs[key]
+    return wrap
+
+
+KEY_SORT = {'INTEGER': z3.IntSort(), 'DISCRETE': xreal.XReal, 'CATEGORICAL': Str}
+
+
+def internal_key(ptype, v):
+    """the internal representation of a (member) value, from the property: ints for INTEGER, floats for DISCRETE,
+    strings for CATEGORICAL with True/False standing for 'True'/'False'"""
+    t = tag_of(v)
+    z = E.to_z3(v)
+    if ptype == 'INTEGER':
+        return E.as_int(z) if t in ('bool', 'int') else (z3.ToInt(xreal.r(z)) if t == 'float' else None)
+    if ptype == 'DISCRETE':
+        return xreal.lift(z) if t != 'str' else None
+    if t == 'str':
+        return z
+    if t == 'bool':
+        return z3.If(z, pm.str_lit(TRUE_S), pm.str_lit(FALSE_S))
+    return None
+
+
+class Subspace:
+    """ParameterConfig.get_subspace_deepcopy(value) / subspace(value): the subspace of a parent value is the child
+    registered under the value's internal representation (a bool selects the 'True'/'False' child, an int given as float
+    the int child); infeasible values are rejected; get_subspace_deepcopy returns a copy and registers nothing."""
+
+    def __init__(self, method, ptype, tag):
+        self.method, self.ptype, self.tag = method, ptype, tag
+        self.sfx = '.%s.%s' % (ptype, tag)
+
+    def entry(self, it):
+        run = it.run
+        run.it = it
+        run.dom = Dom(run, self.ptype)
+        cfg = make_pc(it, run.dom)
+        if self.ptype == 'DOUBLE':
+            run.ch = None
+        else:
+            run.ch = SymMap(run, 'children', pm.PyObj, space_wrap(run), ksort=KEY_SORT[self.ptype])
+            cfg.attrs['_children'] = run.ch
+            run.ch0 = MapSnap(run.ch)
+        run.cfg = cfg
+        run.v = fresh_value(run, self.tag)
+        return call_method(it, cfg, self.method, [run.v])
+
+    def post(self, p):
+        run = p.run
+        R, s = 'C16.%s.' % self.method, self.sfx
+        if self.ptype == 'DOUBLE':
+            if self.method == 'subspace':
+                return [(R + 'continuous_has_no_subspace' + s, z3.BoolVal(p.kind == 'raise'))]
+            r = p.value
+            empty = p.kind == 'return' and isinstance(r, Obj) and isinstance(r.attrs.get('_parameter_configs'), M.PyDict) and len(r.attrs['_parameter_configs']) == 0
+            return [(R + 'continuous_has_no_subspace' + s, z3.BoolVal(bool(empty)))]
+        mem = member(run.dom, run.v)
+        ch0, ch1 = run.ch0, MapSnap(run.ch)
+        same_map = run.cfg.attrs.get('_children') is run.ch
+        if p.kind == 'raise':
+            return [(R + 'rejects_only_infeasible' + s, z3.Not(mem)),
+                    (R + 'reject_registers_nothing' + s, z3.And(z3.BoolVal(same_map), unchanged(ch0, ch1)))]
+        r = p.value
+        key = internal_key(self.ptype, run.v)
+        obs = [(R + 'rejects_infeasible' + s, mem)]
+        if key is None or not isinstance(r, Obj):
+            return obs + [(R + 'selects_registered_child' + s, z3.BoolVal(False))]
+        stored = [o for o in getattr(run, 'cfg_objs', {}).values()]
+        is_real_empty = isinstance(r.attrs.get('_parameter_configs'), M.PyDict) and len(r.attrs['_parameter_configs']) == 0
+        if self.method == 'get_subspace_deepcopy':
+            if '__term__' in r.attrs:
+                sel = z3.And(ch0.dom[key], r.attrs['__term__'] == ch0.val[key])
+            else:
+                sel = z3.And(z3.Not(ch0.dom[key]), z3.BoolVal(bool(is_real_empty)))
+            obs.append((R + 'selects_registered_child' + s, sel))
+            obs.append((R + 'returns_a_copy' + s, z3.BoolVal(all(r is not o for o in stored))))
+            obs.append((R + 'registers_nothing' + s, z3.And(z3.BoolVal(same_map), unchanged(ch0, ch1))))
+            return obs
+        # subspace(): the registered child itself, or a newly registered empty subspace for this parent value
+        if getattr(r, 'abstract', False):
+            obs.append((R + 'selects_registered_child' + s, z3.And(ch0.dom[key], r.term == ch0.val[key], z3.BoolVal(same_map), unchanged(ch0, ch1))))
+        else:
+            t = getattr(r, 'term', None)
+            pv = r.attrs.get('_parent_values')
+            ok = t is not None and same_map and is_real_empty and isinstance(pv, tuple) and len(pv) == 1 and z3.is_expr(E.to_z3(pv[0])) \
+                and E.to_z3(pv[0]).sort() == key.sort()
+            if not ok:
+                obs.append((R + 'selects_registered_child' + s, z3.BoolVal(False)))
+            else:
+                obs.append((R + 'selects_registered_child' + s, z3.And(
+                    z3.Not(ch0.dom[key]), ch1.dom == z3.Store(ch0.dom, key, True), ch1.val == z3.Store(ch0.val, key, t), ch1.n == ch0.n + 1,
+                    E.to_z3(pv[0]) == key)))
+        return obs
+
+    def on_violation(self, name, p, m):
+        run = p.run
+        key = internal_key(self.ptype, run.v) if self.ptype != 'DOUBLE' else None
+        job = {'kind': 'subspace', 'method': self.method, 'pc': dom_spec(m, run.dom), 'value': enc(model_scalar(m, run.v)), 'child_key': None}
+        if key is not None and z3.is_true(m.eval(run.ch0.dom[key], model_completion=True)):
+            job['child_key'] = enc(model_scalar(m, key))
+        return run_replay(job)
